@@ -10,28 +10,28 @@ import (
 )
 
 type harnessEv struct {
-	Name          string         `json:"harness"`
-	Package       string         `json:"package"`
-	Backend       string         `json:"backend"`
-	Bounds        []string       `json:"bounds,omitempty"`
-	Assumes       []string       `json:"assumes,omitempty"`
-	Overrides     [][2]string    `json:"overrides,omitempty"`
-	Paths         int            `json:"paths"`
-	PathEnds      map[string]int `json:"path_ends"`
-	Decisions     int            `json:"decisions"`
-	Instructions  int64          `json:"ssa_instructions_executed"`
-	Asserts       int            `json:"assertions_discharged"`
-	AssertSites   map[string]int `json:"assert_sites"`
-	Reach         map[string]int `json:"reach"`
-	Merged        int            `json:"merged_diamonds"`
-	Queries       map[string]int `json:"queries"`
-	SolverTimeS   float64        `json:"solver_time_s"`
-	WallS         float64        `json:"cpu_wall_s"`
-	BudgetHits    int            `json:"budget_hits"`
-	WitnessSat    bool           `json:"end_reachable_witness"`
-	Validated     int            `json:"models_replayed_natively"`
-	Funcs         []string       `json:"functions_encoded"`
-	Intrinsics    []string       `json:"intrinsics_and_models"`
+	Name         string         `json:"harness"`
+	Package      string         `json:"package"`
+	Backend      string         `json:"backend"`
+	Bounds       []string       `json:"bounds,omitempty"`
+	Assumes      []string       `json:"assumes,omitempty"`
+	Overrides    [][2]string    `json:"overrides,omitempty"`
+	Paths        int            `json:"paths"`
+	PathEnds     map[string]int `json:"path_ends"`
+	Decisions    int            `json:"decisions"`
+	Instructions int64          `json:"ssa_instructions_executed"`
+	Asserts      int            `json:"assertions_discharged"`
+	AssertSites  map[string]int `json:"assert_sites"`
+	Reach        map[string]int `json:"reach"`
+	Merged       int            `json:"merged_diamonds"`
+	Queries      map[string]int `json:"queries"`
+	SolverTimeS  float64        `json:"solver_time_s"`
+	WallS        float64        `json:"cpu_wall_s"`
+	BudgetHits   int            `json:"budget_hits"`
+	WitnessSat   bool           `json:"end_reachable_witness"`
+	Validated    int            `json:"models_replayed_natively"`
+	Funcs        []string       `json:"functions_encoded"`
+	Intrinsics   []string       `json:"intrinsics_and_models"`
 }
 
 type Evidence struct {
@@ -40,17 +40,17 @@ type Evidence struct {
 	Seed       int    `json:"seed"`
 	Level      string `json:"level"`
 	Coverage   struct {
-		States     int           `json:"states"`
-		Transitions int          `json:"transitions"`
-		TracesValidated int      `json:"traces_validated_against_impl"`
-		Samples    []interface{} `json:"samples"`
-		Rule       string        `json:"rule"`
-		Harnesses  []harnessEv   `json:"harnesses"`
-		FunctionsEncoded []string `json:"functions_encoded"`
-		Queries    map[string]int `json:"queries"`
-		SolverTimeS float64      `json:"solver_time_s"`
-		Technique  string        `json:"technique"`
-		NotCovered []string      `json:"not_covered,omitempty"`
+		States           int            `json:"states"`
+		Transitions      int            `json:"transitions"`
+		TracesValidated  int            `json:"traces_validated_against_impl"`
+		Samples          []interface{}  `json:"samples"`
+		Rule             string         `json:"rule"`
+		Harnesses        []harnessEv    `json:"harnesses"`
+		FunctionsEncoded []string       `json:"functions_encoded"`
+		Queries          map[string]int `json:"queries"`
+		SolverTimeS      float64        `json:"solver_time_s"`
+		Technique        string         `json:"technique"`
+		NotCovered       []string       `json:"not_covered,omitempty"`
 	} `json:"coverage"`
 	Assumptions   []string `json:"assumptions"`
 	WallS         float64  `json:"wall_s"`
